@@ -1296,6 +1296,8 @@ fn family_nested_contexts(run: &Run, cnt: &Cnt) -> u64 {
       "\"x/y/c|x/y/c\"",
     ),
     ("F2", Expr::lit("DF(a, b) + \"|\" + DF(second: b, first: a)"), "\"y-x|x-y\""),
+    // a knowledge model invoked by name with entries for some of its parameters only (see the direct invocations below)
+    ("G3call", Expr::lit("G3(a, null, b)"), "[\"x\", null, \"y\"]"),
     // a decision table whose output clauses are named like the inputs: an output entry reads the inputs, not the
     // entries of the clauses before it
     (
@@ -1330,6 +1332,13 @@ fn family_nested_contexts(run: &Run, cnt: &Cnt) -> u64 {
     knowledge: vec![],
     logic: Expr::Relation(vec!["a".into(), "z".into()], vec![vec![s("\"k\""), s("a")]]),
   });
+  m.bkms.push(dmn::Bkm {
+    name: "G3".into(),
+    type_ref: None,
+    params: vec![("first".to_string(), None), ("second".to_string(), None), ("third".to_string(), None)],
+    knowledge: vec![],
+    logic: s("[first, second, third]"),
+  });
   m.decisions.push(dmn::Decision {
     name: "DF".into(),
     type_ref: None,
@@ -1340,7 +1349,7 @@ fn family_nested_contexts(run: &Run, cnt: &Cnt) -> u64 {
     m.decisions.push(dmn::Decision {
       name: name.to_string(),
       type_ref: None,
-      requires: dmn::Requires { inputs: vec!["a".into(), "b".into()], decisions: if *name == "F2" { vec!["DF".into()] } else { vec![] }, knowledge: if *name == "N6" { vec!["G".into()] } else if *name == "R4" { vec!["G2".into()] } else { vec![] } },
+      requires: dmn::Requires { inputs: vec!["a".into(), "b".into()], decisions: if *name == "F2" { vec!["DF".into()] } else { vec![] }, knowledge: if *name == "N6" { vec!["G".into()] } else if *name == "R4" { vec!["G2".into()] } else if *name == "G3call" { vec!["G3".into()] } else { vec![] } },
       logic: Some(logic.clone()),
     });
   }
@@ -1353,6 +1362,23 @@ fn family_nested_contexts(run: &Run, cnt: &Cnt) -> u64 {
       return 1;
     }
   };
+  // the knowledge model G3(first, second, third) invoked by name with every subset of its parameters supplied
+  for mask in 0..8u32 {
+    let names = ["first", "second", "third"];
+    let supplied: Vec<(String, String)> = (0..3).filter(|k| mask & (1 << k) != 0).map(|k| (names[k].to_string(), format!("v{}", k))).collect();
+    let want = format!("[{}]", (0..3).map(|k| if mask & (1 << k) != 0 { format!("\"v{}\"", k) } else { "null".to_string() }).collect::<Vec<_>>().join(", "));
+    let got = crate::rval::show_value_full(&me.evaluate_invocable("G3", &ctx_of(&supplied)));
+    cnt.evals.fetch_add(1, Ordering::Relaxed);
+    cnt.compared.fetch_add(1, Ordering::Relaxed);
+    cnt.nontrivial.fetch_add(1, Ordering::Relaxed);
+    if got != want {
+      run.violation(
+        "nested-contexts:knowledge-model-by-name-with-some-parameters",
+        &format!("knowledge model G3(first, second, third) = [first, second, third] invoked by name with {} gives {} but its logic gives {}", ctx_text(&supplied), got, want),
+        json!({"engine":"dmn","xml":xml,"invocable":"G3","ctx":supplied.iter().map(|(k,v)| json!([k,v])).collect::<Vec<_>>(),"expected":want}),
+      );
+    }
+  }
   let pairs: Vec<(String, String)> = vec![("a".into(), "x".into()), ("b".into(), "y".into())];
   let ctx = ctx_of(&pairs);
   for (name, _, want) in &cases {
